@@ -114,6 +114,8 @@ WDN = ['SU', 'MO', 'TU', 'WE', 'TH', 'FR', 'SA']
 def _offstr(sec):
     s = '+' if sec >= 0 else '-'
     sec = abs(sec)
+    if sec % 60:
+        return '%s%02d%02d%02d' % (s, sec // 3600, sec % 3600 // 60, sec % 60)      # RFC 5545 utc-offset with seconds
     return '%s%02d%02d' % (s, sec // 3600, sec % 3600 // 60)
 
 
